@@ -17,7 +17,8 @@ RULE = ("dataclasses with 1-4 fields over the CLI grammar {int,float,str,bool,Pa
         "a subset of the fields is written in canonical token form, in a seeded permutation, each with the `--opt v` or `--opt=v` "
         "spelling; the first block enumerates every (constructor, pool value) pair as a single-field case. Values whose tokens argparse "
         "would lex as options are excluded (the property's own exclusion). Non-trivial = at least one field written; distinct by case.")
-TRUSTED = ["argparse delivers `--opt t1..tn` / `--opt=t` to the action as modelled in Model/Leaf.v take_values (one occurrence, fresh parser)",
+TRUSTED = ["pinned helper bodies (harness/translate/pinned/*.txt: is_homogeneous_tuple_type, get_container_nargs, postprocess, parse_enum, parse_tuple, get_parsing_fn, ...): the hand model mirrors them; a pin detects any edit, it does not regenerate the model",
+           "argparse delivers `--opt t1..tn` / `--opt=t` to the action as modelled in Model/Leaf.v take_values (one occurrence, fresh parser)",
            "float() and repr are modelled on exact decimal literals only (harness converts repr through decimal.Decimal)"]
 ASSUMPTIONS = ["each field is written at most once per command line; paths are written in normalised form"]
 
@@ -143,6 +144,7 @@ def run_impl(cases):
 
         r = outcome_of(go)
         out.append({"argv": argv, "outcome": r[:2] if r[0] != "ok" else ["ok"], "stderr": (r[2] != "") if r[0] == "exit" else None,
+                    "errline": (r[2].strip().splitlines() or [""])[-1][-300:] if r[0] == "exit" else None,
                     "values": r[1] if r[0] == "ok" else None})
     return out
 
@@ -174,10 +176,19 @@ def _shape(t):
 
 def signature(case, obs, reason):
     if obs["outcome"][0] != "ok":
-        # which written field's type is the likely culprit: report the shapes of written fields
+        # The listed finding (Optional/List of Literal: the Literal alias itself is argparse's `type`, calling it fails) is
+        # recognised by its EVIDENCE, not by the mere presence of such a field: argparse's message must name the option of an
+        # opt[lit]/list[lit] field and say `invalid Literal value`.  Any other rejection - also of a
+        # case that happens to contain such a field - gets the shapes of all written fields and is reported.
         shapes = sorted({_shape(case["fields"][i]["ty"]) for i in order_of(case)})
-        culprit = [s for s in shapes if "lit" in s and ("opt" in s or "list" in s)]
-        return "rejected:" + ":".join(str(x) for x in obs["outcome"][:2]) + ":" + ("+".join(culprit) if culprit else "+".join(shapes))[:60]
+        err = obs.get("errline") or ""
+        culprit = []
+        for i in order_of(case):
+            sh = _shape(case["fields"][i]["ty"])
+            if "lit" in sh and ("opt" in sh or "list" in sh) and f"argument --f{i}:" in err and "invalid Literal value" in err:
+                culprit.append(sh)
+        culprit = sorted(set(culprit))
+        return "rejected:" + ":".join(str(x) for x in obs["outcome"][:2]) + ":" + ("+".join(culprit) if culprit else "other-cause:" + "+".join(shapes))[:60]
     for i, f in enumerate(case["fields"]):
         want = f["assign"] if f["assign"] is not None else f["default"]
         if obs["values"][i] != want:
